@@ -7,6 +7,7 @@ import OtpVerif.Spec.Rfc
 import OtpVerif.Spec.Base32
 import OtpVerif.Model.Utils
 import OtpVerif.Spec.SuiteGrammar
+import OtpVerif.Gen.Registry
 
 namespace OtpVerif.Spec.Run
 open OtpVerif OtpVerif.Spec
@@ -72,6 +73,25 @@ def vtotp (O : HashOracle) (s code : Bytes) (sec : Int) (p : Option Param) : Opt
   | .reject => some "false-err"
   | .silent => if supported q then none else some "false-err"
 
+/-- generate-then-validate the same string: spec answer composed from the two specs (silent if either is) -/
+def gvhotp (O : HashOracle) (s : Bytes) (c1 c2 : Nat) (p : Option Param) : Option String :=
+  let q := rH p
+  if c1 ≥ 2 ^ 64 ∨ q.digits > 255 ∨ q.algo > 255 then none else
+  match secretSpec s with
+  | .bytes k =>
+    if supported q then (vhotp O s (hotp O.hmac q.algo k c1 q.digits) c2 p).map ("gen-ok " ++ ·) else some "gen-err"
+  | .reject => some "gen-err"
+  | .silent => if supported q then none else some "gen-err"
+
+def gvtotp (O : HashOracle) (s : Bytes) (t1 t2 : Int) (p : Option Param) : Option String :=
+  let q := rT p
+  if t1 < 0 ∨ t1 ≥ 2 ^ 62 ∨ q.period > 2 ^ 32 ∨ q.digits > 255 ∨ q.algo > 255 then none else
+  match secretSpec s with
+  | .bytes k =>
+    if supported q then (vtotp O s (hotp O.hmac q.algo k (t1.toNat / q.period) q.digits) t2 p).map ("gen-ok " ++ ·) else some "gen-err"
+  | .reject => some "gen-err"
+  | .silent => if supported q then none else some "gen-err"
+
 def gocra (O : HashOracle) (s : Bytes) (cfg : SuiteConfig) (i : OCRAInput) : Option String :=
   if ¬ enumsInRange cfg ∨ cfg.hash > 255 then (if usable cfg then none else some "err") else
   match secretSpec s with
@@ -105,8 +125,17 @@ def showCfg (c : SuiteConfig) : String :=
 /-- C15: an accepted string must be read as the naming scheme says (`if-ok`), an unreadable one must be rejected -/
 def suite (raw : Bytes) : Option String :=
   match denote raw with
-  | some cfg => some ("if-ok " ++ showCfg cfg ++ " *")
+  | some cfg =>
+    -- an advertised name must be instantiable (and known); any other readable string may be rejected, never mis-read
+    if Gen.listSuites.contains raw then some ("ok " ++ showCfg cfg ++ " known *") else some ("if-ok " ++ showCfg cfg ++ " *")
   | none => some "err *"
+
+/-- C08: exactly 20/32/64 bytes from the stream, unmodified, as unpadded upper-case base32 (bit-wise RFC 4648) -/
+def rnd (a : Nat) (st : Bytes) : Option String :=
+  if a ≥ 3 then some "err consumed=0"
+  else
+    let n := if a = 0 then 20 else if a = 1 then 32 else 64
+    if st.length < n then none else some s!"ok {hex (b32NoPad (st.take n))} consumed={n}"
 
 def allDigits (s : Bytes) : Bool := !s.isEmpty && s.all isDigitChar
 def decVal (s : Bytes) : Nat := s.foldl (fun n c => n * 10 + (c.toNat - 48)) 0
